@@ -128,11 +128,26 @@ def _battery(tier):
     from textx import metamodel_from_str
 
     bad, n = [], 0
-    for kw in ({}, {"textx_tools_support": True}, {"memoization": True}):
+
+    # objects of user-supplied classes take the other branch of process_node (attributes kept in
+    # _tx_obj_attrs until the model is finished): their spans must be the same
+    class Group:
+        def __init__(self, parent=None, name=None, items=None, sub=None):
+            self.parent, self.name, self.items, self.sub = parent, name, items, sub
+
+    class Point:
+        def __init__(self, parent=None, x=None, y=None):
+            self.parent, self.x, self.y = parent, x, y
+
+    class Tail:
+        def __init__(self, parent=None, vals=None):
+            self.parent, self.vals = parent, vals
+
+    for kw in ({}, {"textx_tools_support": True}, {"memoization": True}, {"classes": [Group, Point, Tail]}):
         mm = metamodel_from_str(GRAMMAR, **kw)
         for t in TEXTS:
             n += 1
-            bad += [f"{kw or 'default'} {t[:25]!r}: {b}" for b in _span_problems(mm, t)]
+            bad += [f"{sorted(kw) or 'default'} {t[:25]!r}: {b}" for b in _span_problems(mm, t)]
     d = tempfile.mkdtemp(prefix="txvc-c06-")
     try:
         mm = metamodel_from_str(GRAMMAR)
